@@ -1367,3 +1367,403 @@ func ruleOwnKeys(c *ctx.Ctx, r *core.Reporter) {
 	}
 	r.Check(n >= 4, "sites", "compiler/prelude", fmt.Sprintf("%d probes of `{}`-tables with computed keys examined", n))
 }
+
+// ruleOnceOperands: formatExpr translates every `%e`-class operand where it appears. One Go expression
+// handed over twice (as two arguments) is therefore evaluated twice in the output; the hoisting of
+// formatExprInternal only sees an operand used through an indexed verb (`%1e … %1e`).
+func ruleOnceOperands(c *ctx.Ctx, r *core.Reporter) {
+	r.Begin("C01.once-operands", "F-MUST", "no template receives the same Go expression through two different expression holes (it would be evaluated twice: calls, receives); repeated uses go through one indexed argument, which formatExprInternal hoists", 100)
+	info := c.Pkg("compiler").TypesInfo
+	n := 0
+	for _, t := range usableTemplates(c) {
+		if t.Call == nil || (t.Sink != "formatExpr" && t.Sink != "formatParenExpr") {
+			continue
+		}
+		args := t.FmtArgs()
+		seen := map[string]int{}
+		dup := ""
+		exprHoles := 0
+		used := map[int]bool{}
+		for _, h := range t.Holes {
+			switch h.Verb {
+			case 'e', 'f', 'h', 'l', 'r':
+			default:
+				continue
+			}
+			if h.Index < 0 || h.Index >= len(args) || used[h.Index] {
+				continue
+			}
+			used[h.Index] = true
+			a := args[h.Index]
+			// only ast.Expr-typed arguments are translated (strings are spliced)
+			if tv, ok := info.Types[a]; !ok || !strings.Contains(tv.Type.String(), "ast.") {
+				continue
+			}
+			exprHoles++
+			s := exprStr(a)
+			if prev, ok := seen[s]; ok && prev != h.Index {
+				dup = s
+			}
+			seen[s] = h.Index
+		}
+		if exprHoles == 0 {
+			continue
+		}
+		n++
+		r.Check(dup == "", "once:"+t.Key(), c.Pos(t.Pos), ternary(dup == "", "every Go operand of `"+t.Text+"` is handed over once", "`"+t.Text+"` receives the Go expression `"+dup+"` as two separate arguments: it is translated, and so evaluated, twice (len(f()) calls f twice) — use one indexed argument (%1e … %1e), which is hoisted into a temporary"))
+	}
+	r.Check(n >= 100, "templates", "compiler", fmt.Sprintf("%d expression templates examined", n))
+}
+
+// rulePromotePtr: the forwarding method synthesized for a method promoted from an embedded field calls the
+// method on the field. A method in the POINTER method set of the field type that is not in its value method
+// set (a pointer-receiver method) lives on the pointer type's prototype; for a struct field the field
+// object doubles as its pointer, for any other kind (named int, slice, map, func…) a pointer object to
+// the field has to be made first. The two loops of the synthesizer therefore cannot forward the same way.
+func rulePromotePtr(c *ctx.Ctx, r *core.Reporter) {
+	r.Begin("C09.promote-ptr", "F-SIB", "the method synthesizer forwards the methods of $methodSet($ptrType(f.typ)) through a pointer to the field (a $ptrType(f.typ) object) and says so to the forwarding function; the value-method loop does not", 2)
+	if !needPrelude(c, r) {
+		return
+	}
+	nt := c.PreludeFunc("$newType")
+	if nt == nil {
+		r.Undecided("$newType", "compiler/prelude/types.js", "not found")
+		return
+	}
+	arm := switchArmsByDiscriminant(nt, "kind")["$kindStruct"]
+	if arm == nil {
+		r.Undecided("$newType:$kindStruct", nt.Pos(), "arm not found")
+		return
+	}
+	// forEach callbacks over $methodSet(X): classify X
+	type loop struct {
+		viaPtr bool
+		calls  []*ctx.JSNode
+		node   *ctx.JSNode
+	}
+	var loops []loop
+	for _, st := range arm.L("consequent") {
+		st.Walk(func(x *ctx.JSNode) bool {
+			if !(x.Is("CallExpression") && x.N("callee").MemberName() == "forEach") {
+				return true
+			}
+			src := x.N("callee").N("object")
+			if !(src.Is("CallExpression") && src.N("callee").IdentName() == "$methodSet" && len(src.L("arguments")) == 1) {
+				return true
+			}
+			a := src.L("arguments")[0]
+			lp := loop{node: x}
+			if a.Is("CallExpression") && a.N("callee").IdentName() == "$ptrType" {
+				lp.viaPtr = true
+			}
+			if len(x.L("arguments")) == 1 {
+				x.L("arguments")[0].Walk(func(y *ctx.JSNode) bool {
+					if y.Is("CallExpression") && y.N("callee").Is("Identifier") && y != x {
+						lp.calls = append(lp.calls, y)
+					}
+					return true
+				})
+			}
+			loops = append(loops, lp)
+			return true
+		})
+	}
+	var val, ptr *loop
+	for i := range loops {
+		if loops[i].viaPtr {
+			ptr = &loops[i]
+		} else {
+			val = &loops[i]
+		}
+	}
+	if val == nil || ptr == nil || len(val.calls) == 0 || len(ptr.calls) == 0 {
+		r.Undecided("loops", arm.Pos(), "the two forEach loops over $methodSet(f.typ) and $methodSet($ptrType(f.typ)) were not both found")
+		return
+	}
+	sig := func(cs []*ctx.JSNode) string {
+		var out []string
+		for _, x := range cs {
+			out = append(out, fmt.Sprintf("%s/%d", x.N("callee").IdentName(), len(x.L("arguments"))))
+		}
+		return strings.Join(out, " ")
+	}
+	differs := true
+	for _, pc := range ptr.calls {
+		for _, vc := range val.calls {
+			if pc.N("callee").IdentName() == vc.N("callee").IdentName() && len(pc.L("arguments")) == len(vc.L("arguments")) {
+				differs = false
+			}
+		}
+	}
+	r.Check(differs, "ptr-loop-says-so", ptr.node.Pos(), fmt.Sprintf("the loop over the pointer method set forwards differently from the value loop (value loop: %s; pointer loop: %s): with the same forwarding function and arguments a pointer-receiver method of an embedded named non-struct type is looked up on the value (`v[m.prop] is not a function`)", sig(val.calls), sig(ptr.calls)))
+	// the forwarding function can make a pointer to the field
+	makes := false
+	for _, st := range arm.L("consequent") {
+		st.Walk(func(x *ctx.JSNode) bool {
+			if x.Is("NewExpression") && strings.Contains(squash(x.N("callee").Src()), "$ptrType(") {
+				makes = true
+			}
+			return true
+		})
+	}
+	r.Check(makes, "forwarder-makes-field-pointer", arm.Pos(), "the synthesizer constructs a `new ($ptrType(f.typ))(…)` pointer to the embedded field for pointer-receiver methods of non-struct field types")
+}
+
+// ruleCompoundAssign: `x op= y` means `x = x op (y)` — y is evaluated as a whole. filter.Assign builds the
+// binary expression from syntax, and the translator prints operands by the syntax tree it is given, so
+// the right operand has to be wrapped in parentheses (`h *= a + b` would become `h * a + b`).
+func ruleCompoundAssign(c *ctx.Ctx, r *core.Reporter) {
+	r.Begin("C01.compound-assign", "F-MUST", "filter.Assign rewrites `x op= y` to `x = x op (y)` with the right operand wrapped in an *ast.ParenExpr (typed like y)", 1)
+	fd := c.FuncDecl("compiler/filter", "Assign")
+	if fd == nil {
+		r.Undecided("filter.Assign", "compiler/filter/assign.go", "not found")
+		return
+	}
+	n, good := 0, 0
+	ast.Inspect(fd.Body, func(x ast.Node) bool {
+		cl, ok := x.(*ast.CompositeLit)
+		if !ok || exprStr(cl.Type) != "ast.BinaryExpr" {
+			return true
+		}
+		n++
+		for _, el := range cl.Elts {
+			kv, ok := el.(*ast.KeyValueExpr)
+			if !ok || exprStr(kv.Key) != "Y" {
+				continue
+			}
+			if len(findGoPattern(kv.Value, `&ast.ParenExpr{X: µs.Rhs[0]}`)) == 1 {
+				good++
+			}
+		}
+		return true
+	})
+	r.Check(n >= 1 && good == n, "rhs-parenthesised", c.Pos(fd.Pos()), fmt.Sprintf("%d of %d binary expressions built by filter.Assign take `&ast.ParenExpr{X: s.Rhs[0]}` as their right operand", good, n))
+}
+
+// ruleC04SelectionIndex: the concrete selection built for `x.M` with x of type-parameter type names the
+// receiver, the index path through embedded fields, and the object. After substitution the path belongs to
+// the INSTANTIATED receiver (a struct that gets M by embedding has a longer path than the type parameter,
+// whose methods are all at depth 0): index and object are the two results of one LookupFieldOrMethod call
+// on the very receiver the selection is built with.
+func ruleC04SelectionIndex(c *ctx.Ctx, r *core.Reporter) {
+	r.Begin("C04.selection", "F-KEY", "Resolver.SubstituteSelection builds the concrete selection from the receiver it looked the member up on, with the index path and the object of that one lookup", 1)
+	fd := c.FuncDecl("compiler/internal/typeparams", "Resolver.SubstituteSelection")
+	if fd == nil {
+		r.Undecided("SubstituteSelection", "compiler/internal/typeparams/resolver.go", "not found")
+		return
+	}
+	n := 0
+	ast.Inspect(fd.Body, func(x ast.Node) bool {
+		ce, ok := x.(*ast.CallExpr)
+		if !ok || len(ce.Args) != 5 {
+			return true
+		}
+		se, ok := ce.Fun.(*ast.SelectorExpr)
+		if !ok || se.Sel.Name != "NewSelection" {
+			return true
+		}
+		// only the calls that follow a lookup on a substituted receiver (the method arms)
+		recv, idx, obj := exprStr(ce.Args[1]), exprStr(ce.Args[2]), exprStr(ce.Args[3])
+		if _, isIdent := ce.Args[3].(*ast.Ident); !isIdent {
+			return true
+		}
+		lookups := findGoPattern(fd.Body, `µo, µi, µ_ := types.LookupFieldOrMethod(µr, µa, µp, µn)`)
+		lookups = append(lookups, findGoPattern(fd.Body, `µo, µi, µ_ = types.LookupFieldOrMethod(µr, µa, µp, µn)`)...)
+		hasObjLookup := false
+		good := false
+		for _, m := range lookups {
+			if m.Env["µo"] == obj {
+				hasObjLookup = true
+				if m.Env["µi"] == idx && m.Env["µr"] == recv && m.Node.Pos() < ce.Pos() {
+					good = true
+				}
+			}
+		}
+		// lookups that discard the index (`obj, _, _ :=`) still bind the object
+		for _, m := range findGoPattern(fd.Body, `µo, _, µ_ := types.LookupFieldOrMethod(µr, µa, µp, µn)`) {
+			if m.Env["µo"] == obj {
+				hasObjLookup = true
+			}
+		}
+		if !hasObjLookup {
+			return true
+		}
+		n++
+		r.Check(good, fmt.Sprintf("selection:index-from-lookup#%d", n), c.Pos(ce.Pos()), fmt.Sprintf("NewSelection(…, %s, %s, %s, …): receiver, index path and object are the operand and the results of one types.LookupFieldOrMethod call (the generic selection's own path is wrong as soon as the type argument gets the method by embedding)", recv, idx, obj))
+		return true
+	})
+	r.Check(n >= 1, "sites", c.Pos(fd.Pos()), fmt.Sprintf("%d selection(s) built after a lookup on the instantiated receiver", n))
+}
+
+// ruleC05NestedReplacements: the DCE filter of a declaration nested in a generic context mentions the
+// type parameters of the enclosing context as well (a method `func (l *List[K]) link(nd *node[K])` names
+// node[K]); pushGenerics therefore starts the replacement table of the inner object from the outer one.
+func ruleC05NestedReplacements(c *ctx.Ctx, r *core.Reporter) {
+	r.Begin("C05.replacements", "F-MUST", "filterGen.pushGenerics seeds the new type-parameter replacement table with every entry of the previous one, and restores the previous table afterwards", 2)
+	fd := c.FuncDecl("compiler/internal/dce", "filterGen.pushGenerics")
+	if fd == nil {
+		r.Undecided("pushGenerics", "compiler/internal/dce/filters.go", "not found")
+		return
+	}
+	inherit := hasGoPattern(fd.Body, `µold := µg.replacement; µg.replacement = map[types.Type]types.Type{}; for µk, µv := range µold { µg.replacement[µk] = µv }`)
+	r.Check(inherit, "inherits-outer", c.Pos(fd.Pos()), "the fresh table receives all entries of the table in force (outer type parameters stay substituted inside the nested object: otherwise the declaration's filter reads `node[any]` where the use site recorded `node[int]`, and the declaration is eliminated)")
+	restore := false
+	ast.Inspect(fd.Body, func(x ast.Node) bool {
+		if fl, ok := x.(*ast.FuncLit); ok && hasGoPattern(fl.Body, `µg.replacement = µold`) {
+			restore = true
+		}
+		return true
+	})
+	r.Check(restore, "restores-outer", c.Pos(fd.Pos()), "the returned function puts the previous table back")
+}
+
+// ruleC02EscapingScope: translateFunctionBody saves pkgCtx.escapingVars, lets the body extend it (variables
+// that must live in a box because a closure or a pointer outlives a suspension), and restores it for the
+// enclosing function. Every piece of code the function emits — the epilogue of the defer wrapper
+// (`return <named results>`) included — has to be translated while the extended set is in force, or it
+// names the box where it means the value.
+func ruleC02EscapingScope(c *ctx.Ctx, r *core.Reporter) {
+	r.Begin("C02.escaping-scope", "F-PAIR", "in every function that saves and restores pkgCtx.escapingVars, no translation call (translate*, objectName, formatExpr, zeroValue) follows the restore", 1)
+	n := 0
+	for _, fd := range c.AllFuncDecls("compiler") {
+		if fd.Body == nil || c.IsTestFile(fd.Pos()) {
+			continue
+		}
+		saves := findGoPattern(fd.Body, `µp := µfc.pkgCtx.escapingVars`)
+		if len(saves) == 0 {
+			continue
+		}
+		for _, sv := range saves {
+			saved := sv.Env["µp"]
+			var restore ast.Node
+			deferred := false
+			ast.Inspect(fd.Body, func(x ast.Node) bool {
+				switch s := x.(type) {
+				case *ast.DeferStmt:
+					if hasGoPattern(s, `µfc.pkgCtx.escapingVars = `+saved) {
+						deferred = true
+					}
+				case *ast.AssignStmt:
+					if len(s.Lhs) == 1 && len(s.Rhs) == 1 && strings.HasSuffix(exprStr(s.Lhs[0]), ".escapingVars") && exprStr(s.Rhs[0]) == saved {
+						restore = s
+					}
+				}
+				return true
+			})
+			n++
+			key := "restore-after-last-translation:" + ctx.FuncName(fd)
+			if deferred {
+				r.Check(true, key, c.Pos(fd.Pos()), "restored by a deferred statement")
+				continue
+			}
+			if restore == nil {
+				r.Violation(key, c.Pos(sv.Node.Pos()), "escapingVars is saved in `"+saved+"` but never restored")
+				continue
+			}
+			late := ""
+			ast.Inspect(fd.Body, func(x ast.Node) bool {
+				ce, ok := x.(*ast.CallExpr)
+				if !ok || ce.Pos() < restore.End() {
+					return true
+				}
+				if se, ok := ce.Fun.(*ast.SelectorExpr); ok {
+					nm := se.Sel.Name
+					if strings.HasPrefix(nm, "translate") || nm == "objectName" || nm == "formatExpr" || nm == "formatParenExpr" || nm == "zeroValue" || nm == "varPtrName" {
+						if late == "" {
+							late = exprStr(ce.Fun) + " at " + c.Pos(ce.Pos())
+						}
+					}
+				}
+				return true
+			})
+			r.Check(late == "", key, c.Pos(restore.Pos()), ternary(late == "", "nothing is translated after `"+nodeString(c, restore)+"`", "`"+nodeString(c, restore)+"` is followed by "+late+": code translated there (the `return <named results>` of the defer epilogue) no longer sees which variables are boxed and names the box instead of the value"))
+		}
+	}
+	r.Check(n >= 1, "sites", "compiler/functions.go", fmt.Sprintf("%d save/restore pair(s) of escapingVars", n))
+}
+
+// ruleC06RemZero: JavaScript's % takes the sign of the dividend, zero included: -4 % 2 is -0. An integer has
+// no negative zero (println shows it, 1/float64(r) is -Inf), so the remainder of the small integer kinds
+// is coerced like every other arithmetic result — after the NaN test that detects division by zero,
+// which a coercion would hide.
+func ruleC06RemZero(c *ctx.Ctx, r *core.Reporter) {
+	r.Begin("C06.rem-zero", "F-MUST", "the non-64-bit integer remainder tests its raw result for NaN (division by zero) and yields the result through fixNumber (no -0)", 1)
+	n := 0
+	for _, t := range usableTemplates(c) {
+		if t.Func != "funcContext.translateExpr" || !strings.Contains(strings.Join(t.CasePath, "/"), "token.REM") || !strings.Contains(t.Text, " % ") {
+			continue
+		}
+		n++
+		q := strings.Index(t.Text, "?")
+		colon := strings.LastIndex(t.Text, ": $throwRuntimeError")
+		nanFirst := q > 0 && strings.Contains(t.Text[:q], "===")
+		ok := false
+		why := "no conditional"
+		if q > 0 && colon > q {
+			branch := strings.TrimSpace(t.Text[q+1 : colon])
+			why = "the success branch is `" + branch + "`"
+			if strings.Contains(branch, ">> 0") || strings.Contains(branch, ">>> 0") || strings.Contains(branch, "| 0") || strings.Contains(branch, "+ 0") {
+				ok = true
+			}
+			if m := holeNumRe.FindStringSubmatch(branch); m != nil && branch == m[0] {
+				var hi int
+				fmt.Sscanf(m[1], "%d", &hi)
+				args := t.FmtArgs()
+				if hi < len(t.Holes) && t.Holes[hi].Index >= 0 && t.Holes[hi].Index < len(args) {
+					a := args[t.Holes[hi].Index]
+					if ce, isCall := ast.Unparen(a).(*ast.CallExpr); isCall {
+						if se, isSel := ce.Fun.(*ast.SelectorExpr); isSel && se.Sel.Name == "fixNumber" {
+							ok = true
+						}
+					}
+					why += ", fed by `" + exprStr(a) + "`"
+				}
+			}
+		}
+		r.Check(nanFirst && ok, fmt.Sprintf("rem:coerced-after-nan-test#%d", n), c.Pos(t.Pos), fmt.Sprintf("`%s`: the raw remainder is compared with itself first and then coerced (%s)", t.Text, why))
+	}
+	r.Check(n >= 1, "sites", "compiler/expressions.go", fmt.Sprintf("%d remainder template(s)", n))
+}
+
+// ruleSliceHeaderPreserved: a conversion between slice types keeps the slice header: same backing array,
+// offset, length AND capacity. A header rebuilt from $array alone has the capacity of the whole array;
+// append then writes into elements the three-index slice had fenced off.
+func ruleSliceHeaderPreserved(c *ctx.Ctx, r *core.Reporter) {
+	r.Begin("C07.slice-header", "F-KEY", "$convertSliceType derives every field of the new header from the corresponding field of the operand: $offset, $length and $capacity", 1)
+	if !needPrelude(c, r) {
+		return
+	}
+	fn := c.PreludeFunc("$convertSliceType")
+	if fn == nil {
+		r.Undecided("$convertSliceType", "compiler/prelude/prelude.js", "not found")
+		return
+	}
+	param := ""
+	if ps := fn.L("params"); len(ps) > 0 {
+		param = ps[0].IdentName()
+	}
+	reads := map[string]bool{}
+	fn.Walk(func(x *ctx.JSNode) bool {
+		if x.Is("MemberExpression") && x.N("object").IdentName() == param {
+			reads[x.MemberName()] = true
+		}
+		return true
+	})
+	var missing []string
+	for _, f := range []string{"$array", "$offset", "$length", "$capacity"} {
+		if !reads[f] {
+			missing = append(missing, f)
+		}
+	}
+	// a $subslice call without a max argument takes the capacity of its first argument
+	short := ""
+	fn.Walk(func(x *ctx.JSNode) bool {
+		if x.Is("CallExpression") && x.N("callee").IdentName() == "$subslice" && len(x.L("arguments")) < 4 {
+			if a := x.L("arguments")[0]; a.Is("NewExpression") {
+				short = squash(x.Src())
+			}
+		}
+		return true
+	})
+	r.Check(len(missing) == 0 && short == "", "convert:header-fields", fn.Pos(), fmt.Sprintf("the converted slice takes $array, $offset, $length and $capacity from `%s`%s%s", param, ternary(len(missing) > 0, fmt.Sprintf(" (never reads %v)", missing), ""), ternary(short != "", " (`"+short+"` leaves the capacity to the freshly built header, i.e. the whole backing array: S(a[0:2:2]) has capacity 4 and append overwrites a[2])", "")))
+}
